@@ -1,10 +1,199 @@
 import BFL.Driver.Proto
-/- Driver entries of this group (stub: no operation handled yet). -/
+import BFL.Model.Bounds
+/-
+Driver entries of C14 (shape algebra).  Every op takes the same tokens as the op of the same name
+in `harness/h_bounds.cpp` and prints
+
+    V<0|1> ok <tokens>      the transcription's obligations all hold; tokens = what the harness prints
+    V<0|1> throw            the modelled call reports through a C++ exception
+    V<0|1> abort <site>     the first violated obligation (the dbg build aborts there)
+
+where `V1` means the configuration satisfies the documented precondition `…Valid` of the entry point
+(the hypothesis of the theorems in `BFL/Props/C14.lean`).
+-/
 namespace BFL.DriverBounds
-open BFL BFL.Proto
+open BFL BFL.Proto BFL.Bounds
+
+def fmt (valid : Bool) (c : Case) : String :=
+  (if valid then "V1 " else "V0 ") ++ (outcome c).str
+
+def dim : R Dim := do
+  match Dim.ofNat? (← nat) with
+  | some d => pure d
+  | none => failure
+
+/-- `dl dc quat` -/
+def layout3 : R Layout := do
+  let dl ← nat; let dc ← nat; let q ← bool
+  pure ⟨dl, dc, q, 0⟩
+/-- `dl dc quat dn` -/
+def layout4 : R Layout := do
+  let dl ← nat; let dc ← nat; let q ← bool; let dn ← nat
+  pure ⟨dl, dc, q, dn⟩
+
+def natList : R (List Nat) := do
+  let k ← nat
+  listOf k nat
+
+def rest : R (List String) := do
+  let ts ← get
+  set ([] : List String)
+  pure ts
+
+/-- `in_l in_c in_q in_noise  ml mc mq  prows dcols irows ysize rr  mvalid pvalid ivalid` -/
+def mmod : R MMod := do
+  let il ← nat; let ic ← nat; let iq ← bool; let inn ← nat
+  let ml ← nat; let mc ← nat; let mq ← bool
+  let prows ← nat; let dcols ← nat; let irows ← nat; let ysize ← nat; let rr ← nat
+  let mv ← bool; let pv ← bool; let iv ← bool
+  pure ⟨⟨il, ic, iq, inn⟩, ⟨ml, mc, mq, 0⟩, prows, dcols, irows, ysize, rr, mv, pv, iv⟩
+
+def histOp (t : String) : Option HOp :=
+  let k := t.toList.headD ' '
+  let a := (String.ofList (t.toList.drop 1)).toNat?.getD 0
+  if k = 'a' then some (.add a)
+  else if k = 's' then some (.setSize a)
+  else if k = 'd' then some .dec
+  else if k = 'i' then some .inc
+  else if k = 'c' then some .clear
+  else if k = 'g' then some .get
+  else if k = 'm' then some (if a = 0 then .moveKeepNew else .moveKeepOld)
+  else none
+
+def handleR (op : String) : Option (R String) :=
+  match op with
+  | "b_wna_noise" => some do
+      let d ← dim; let num ← nat; done
+      pure (fmt true (wnaNoiseCase d num))
+  | "b_wna_motion" => some do
+      let d ← dim; let num ← nat; let sr ← nat; done
+      pure (fmt (decide (wnaMotionValid d sr)) (wnaMotionCase d num sr))
+  | "b_wna_tp" => some do
+      let d ← dim; let num ← nat; let sr ← nat; done
+      pure (fmt (decide (wnaMotionValid d sr)) (wnaTPCase d num sr))
+  | "b_wna_move" => some do
+      let d ← dim; let num ← nat; done
+      pure (fmt true (wnaMoveCase d num))
+  | "b_lm" => some do
+      let n ← nat; let rr ← nat; let rc ← nat; let num ← nat; let comps ← natList; done
+      pure (fmt true (lmCase n rr rc num comps))
+  | "b_ssm" => some do
+      let d ← dim; let T ← nat; let sr ← nat; let calls ← nat; done
+      pure (fmt (decide (ssmValid d sr)) (ssmCase d T sr calls))
+  | "b_ssmlog" => some do
+      let d ← dim; let T ← nat; let calls ← nat; done
+      pure (fmt (decide (ssmLogValid T calls)) (ssmLogCase d T calls))
+  | "b_sls" => some do
+      let d ← dim; let T ← nat; let n ← nat; let rr ← nat; let calls ← nat; let comps ← natList; done
+      pure (fmt (decide (slsValid d n)) (slsCase d T n rr calls comps))
+  | "b_hist" => some do
+      let S ← nat
+      let ts ← rest
+      match ts.mapM histOp with
+      | none => failure
+      | some ops => pure (fmt (decide (histValid S ops)) (histCase S ops))
+  | "b_grid" => some do
+      let nx ← nat; let ny ← nat; let N ← nat; let L ← layout3; done
+      pure (fmt true (gridCase nx ny N L))
+  | "b_sp" => some do
+      let K ← nat; let L ← layout4; done
+      pure (fmt (decide (spValid K L)) (spCase K L))
+  | "b_utw" => some do
+      let dof ← nat; done
+      pure (fmt true (utwCase dof))
+  | "b_ut" => some do
+      let K ← nat; let I ← layout4; let wdof ← nat
+      let ol ← nat; let oc ← nat; let oq ← bool; let prows ← nat; let dcols ← nat; let fv ← bool; done
+      let O : Layout := ⟨ol, oc, oq, 0⟩
+      pure (fmt (decide (utValid K I wdof O prows dcols)) (utCase K I wdof O prows dcols fv))
+  | "b_utsm" => some do
+      let kind ← nat; let K ← nat; let I ← layout4; let wdof ← nat
+      let fn ← nat; let fq ← nat; let D ← layout3; done
+      pure (fmt (decide (utsmValid K I wdof fn fq D)) (utsmCase (kind != 0) K I wdof fn fq D))
+  | "b_utwna" => some do
+      let kind ← nat; let d ← dim; let K ← nat; let dl ← nat; let dn ← nat; let wdof ← nat; done
+      pure (fmt (decide (utwnaValid d K dl dn wdof)) (utwnaCase (kind != 0) d K dl dn wdof))
+  | "b_utmm" => some do
+      let kind ← nat; let K ← nat; let I ← layout4; let wdof ← nat; let M ← mmod; done
+      pure (fmt (decide (utmmValid (kind != 0) K I wdof M)) (utmmCase (kind != 0) K I wdof M))
+  | "b_ukfc" => some do
+      let kind ← nat; let K ← nat; let I ← layout3
+      let cK ← nat; let C ← layout3
+      let M ← mmod
+      if kind = 2 then do
+        let sub ← nat; let reduced ← bool; done
+        pure (fmt (decide (sukfValid I K C cK M sub reduced)) (sukfCase I K C cK M sub reduced))
+      else do
+        done
+        pure (fmt (decide (ukfValid (kind = 1) I K C cK M)) (ukfCase (kind = 1) I K C cK M))
+  | "b_corrseq" => some do
+      -- kind dl dc quat  <mmod>  [sub reduced]  n (K mv pv iv)*
+      let kind ← nat; let I ← layout3; let M ← mmod
+      let (sub, reduced) ← (if kind = 2 then do let s ← nat; let r ← bool; pure (s, r) else pure (0, false))
+      let n ← nat
+      let steps ← listOf n (do let K ← nat; let mv ← bool; let pv ← bool; let iv ← bool; pure (CStep.mk K mv pv iv))
+      done
+      if kind = 2 then pure (fmt (decide (sukfSeqValid I M sub reduced steps)) (sukfSeqCase I M sub reduced steps))
+      else pure (fmt (decide (ukfSeqValid (kind = 1) I M steps)) (ukfSeqCase (kind = 1) I M steps))
+  | "b_wna_seq" => some do
+      let d ← dim; let nums ← natList; done
+      pure (fmt true (wnaSeqCase d nums))
+  | "b_lm_seq" => some do
+      let n ← nat; let comps ← natList; let nums ← natList; done
+      pure (fmt true (lmSeqCase n comps nums))
+  | "b_kfc" => some do
+      let K ← nat; let I ← layout3; let cK ← nat; let C ← layout3
+      let hm ← nat; let hn ← nat; let ysize ← nat; let mv ← bool; done
+      pure (fmt (decide (kfValid I K C cK hm hn ysize)) (kfCase I K C cK hm hn ysize mv))
+  | "b_gmacc" => some do
+      let K ← nat; let L ← layout4; let which ← tok; let i ← nat; let j ← nat; let k ← nat; done
+      pure (fmt (decide (gmaccValid K L which i j k)) (gmaccCase K L which i j k))
+  | "b_psacc" => some do
+      let K ← nat; let L ← layout3; let which ← tok; let i ← nat; let j ← nat; done
+      pure (fmt (decide (psaccValid K L which i j)) (psaccCase K L which i j))
+  | "b_gmaug" => some do
+      let K ← nat; let L ← layout3; let r1 ← nat; let c1 ← nat; let r2 ← nat; let c2 ← nat; done
+      pure (fmt (decide (gmaugValid K)) (gmaugCase K L ⟨r1, c1⟩ ⟨r2, c2⟩))
+  | "b_gmresize" => some do
+      let K ← nat; let L ← layout4; let K2 ← nat; let dl2 ← nat; let dc2 ← nat; done
+      pure (fmt (decide (gmresizeValid K L)) (gmresizeCase K L K2 dl2 dc2))
+  | "b_psresize" => some do
+      let K ← nat; let L ← layout3; let K2 ← nat; let dl2 ← nat; let dc2 ← nat; done
+      pure (fmt true (psresizeCase K L K2 dl2 dc2))
+  | "b_psadd" => some do
+      let K1 ← nat; let L1 ← layout3; let K2 ← nat; let L2 ← layout3; done
+      pure (fmt (decide (psaddValid L1 L2)) (psaddCase K1 L1 K2 L2))
+  | "b_rs" => some do
+      let N ← nat; let I ← layout3; let rN ← nat; let Rl ← layout3; let plen ← nat; done
+      pure (fmt (decide (rsValid N I rN Rl plen)) (rsCase N I rN Rl plen))
+  | "b_rwp" => some do
+      let N ← nat; let rnum ← nat; let rden ← nat; let I ← layout3; let nx ← nat; let ny ← nat; let plen ← nat; done
+      pure (fmt (decide (rwpValid N rnum rden I plen)) (rwpCase N rnum rden I nx ny plen))
+  | "b_ee" => some do
+      let ls ← nat; let cs ← nat; let m ← nat; let full ← bool
+      let prow ← nat; let pcol ← nat; let wlen ← nat; let pwlen ← nat; let llen ← nat; let tpr ← nat; let tpc ← nat
+      let reps ← nat; let window ← nat; done
+      match EMethod.ofNat? m with
+      | none => failure
+      | some em =>
+        let a : EEArgs := ⟨⟨prow, pcol⟩, wlen, pwlen, llen, ⟨tpr, tpc⟩⟩
+        pure (fmt (decide (eeValid ls cs full a)) (eeCase ls cs em full a reps window))
+  | "b_eefn" => some do
+      let ls ← nat; let cs ← nat; let fn ← tok
+      let prow ← nat; let pcol ← nat; let wlen ← nat; let llen ← nat; let tpr ← nat; let tpc ← nat; done
+      let a : EEArgs := ⟨⟨prow, pcol⟩, wlen, wlen, llen, ⟨tpr, tpc⟩⟩
+      pure (fmt (decide (eeValid ls cs (fn == "map") a)) (eefnCase ls cs fn ⟨prow, pcol⟩ wlen llen ⟨tpr, tpc⟩))
+  | "b_gpfmove" => some do
+      let mode ← nat; let n ← nat; done
+      pure (fmt true (gpfMoveCase mode n))
+  | "b_gpfsample" => some do
+      let m ← nat; let c ← nat; done
+      pure (fmt (decide (gpfSampleValid m c)) (gpfSampleCase m c))
+  | _ => none
 
 def handle (op : String) (args : List String) : Option String :=
-  match op with
-  | _ => none
+  match handleR op with
+  | none => none
+  | some p => some ((run p args).getD "bad-args")
 
 end BFL.DriverBounds
